@@ -256,6 +256,9 @@ func oracleSeq(prop string) Oracle {
 				viol(res, class, k+" via "+r.Op.Tag, "model before:%s; observed %s; recent ops on the key: %v", before, descRecT(r), tr)
 			}
 		}
+		if m.overflow {
+			res.Status, res.Reason, res.Violations = "inconclusive", "more than 20000 candidate states for one key", nil
+		}
 		keys := sortedSet(sig)
 		res.NTKey = fmt.Sprint(keys)
 	}
